@@ -3,12 +3,12 @@
 package qdb
 
 import (
-	"time"
 	"encoding/hex"
 	"fmt"
 	"os"
 	"os/exec"
 	"strings"
+	"time"
 
 	"github.com/piotrnar/gocoin/lib/others/zzverif"
 )
@@ -24,7 +24,7 @@ import (
 //go:noinline
 func h_c19_mark() {}
 
-func h_c19_native(ops []h_op, opts *ExtraOpts, syncEach bool) {
+func h_c19_native(pre, ops []h_op, opts *ExtraOpts, syncEach bool) {
 	mode := os.Getenv("ZZVERIF_C19_MODE")
 	dir := os.Getenv("ZZVERIF_C19_DIR")
 	open := func() *DB {
@@ -35,6 +35,13 @@ func h_c19_native(ops []h_op, opts *ExtraOpts, syncEach bool) {
 	switch mode {
 	case "run":
 		j, _ := os.OpenFile(dir+"/journal", os.O_CREATE|os.O_WRONLY|os.O_APPEND, 0600)
+		if len(pre) > 0 {
+			db := open()
+			for _, o := range pre {
+				db = h_apply(db, o, open)
+			}
+			db.Close()
+		}
 		h_c19_mark() // gdb arms the system-call catchpoint here
 		db := open()
 		for i, o := range ops {
@@ -85,6 +92,11 @@ func h_c19_native(ops []h_op, opts *ExtraOpts, syncEach bool) {
 		child("run", d, strace)
 		// what the journal says
 		m := h_new_model(syncEach)
+		for _, o := range pre {
+			m.started(o)
+			m.done(o)
+		}
+		m.synced()
 		jb, _ := os.ReadFile(d + "/journal")
 		journal := string(jb)
 		for i, o := range ops {
